@@ -42,9 +42,18 @@ class LifeInterp(FinamInterp):
         self.slots = []  # (slot stub, has own limit, has own location)
         self.memory_at_first_connect = None
         self.slot_finalized = []
+        self.dirs_made = []  # (path, some component has connected already)
 
     # ----- externals nobody looks into
+    def decide(self, cond, node):
+        if isinstance(cond, Sym) and cond.op in ("LIMIT", "LOCATION"):
+            return True  # a positive limit / a non-empty path
+        return super().decide(cond, node)
+
     def ext_call(self, name, args, kwargs, node):
+        if name in ("os.makedirs", "makedirs", "os.mkdir") or name.endswith(".mkdir"):
+            self.dirs_made.append((args[0] if args else None, any(p == "connect" for _c, p in self.trace)))
+            return None
         root = name.split(".")[0]
         if root in ("logging", "sys", "os", "Path", "strftime", "time", "pathlib") or name in ("Path", "strftime"):
             return OPAQUE
@@ -138,7 +147,7 @@ def _comp(name, t0):
 def _slot(label, kind, own_limit, own_loc):
     o = Obj(label=label, markers={"IOutput", "slot-stub"} | ({"IAdapter", "IInput"} if kind == "adapter" else set()))
     o.fields.update(memory_limit=Sym("own_limit") if own_limit else None, memory_location=Sym("own_loc") if own_loc else None,
-                    targets=[], name=label, is_static=False, needs_push=False, needs_pull=False, source=None)
+                    targets=[], has_targets=False, name=label, is_static=False, needs_push=False, needs_pull=False, source=None)
     return o
 
 
@@ -168,6 +177,7 @@ def _drive(repo, script, end=6, timed=True, connect_twice=False, dangling_input=
                 out = _slot(f"output({tag})", "output", own_limit, own_loc)
                 ada = _slot(f"adapter({tag})", "adapter", own_limit, own_loc)
                 out.fields["targets"] = [ada]
+                out.fields["has_targets"] = True
                 ada.fields["source"] = out
                 outs.append((f"o{len(outs)}", out))
                 it.slots.append((out, own_limit, own_loc))
@@ -309,6 +319,25 @@ def r25w_memory_wiring(repo, sink):
                               f"{want[1]!r} (each unset setting takes the composition's value independently, own settings are kept)")
         sink.check(why is None, "R25", f"composition-hands-limit-to:{kind}s", conn,
                    ok=f"every unset memory limit / location of the {kind}s takes the composition's value before data is exchanged, own settings are kept",
+                   bad=why or "")
+    # the spill directory exists before the first component connects, whatever the composition-wide limit is: single slots
+    # carry their own limits and take only the location from the composition
+    why = None
+    for lim_name, lim in (("a positive limit", Sym("LIMIT")), ("limit 0 (spill everything)", 0), ("no composition-wide limit", None)):
+        try:
+            it2, outcome2 = _drive(repo, {"A": dict(step=2, connect_calls=1)}, memory_slots=True,
+                                   ctor={"slot_memory_limit": lim, "slot_memory_location": Sym("LOCATION")})
+        except (AnalysisError, Undecided) as exc:
+            sink.unknown("R25", "spill-directory-created", conn, f"outside vocabulary: {exc}")
+            why = "unknown"
+            break
+        if outcome2 is not None:
+            why = why or f"{lim_name}: the scripted composition ends in {outcome2}"
+        elif not any(p == Sym("LOCATION") and not late for p, late in it2.dirs_made):
+            why = why or (f"{lim_name}: the configured spill location is not created before the first component connects "
+                          f"(directories made: {it2.dirs_made!r}); outputs and adapters with their own limit write below it, the first spill fails with FileNotFoundError")
+    if why != "unknown":
+        sink.check(why is None, "R25", "spill-directory-created", conn, ok="the configured spill location is created before any data is exchanged, for every composition-wide limit",
                    bad=why or "")
     adapters = sorted(sl.label for sl, _a, _b in it.slots if sl.label.startswith("adapter"))
     sink.check(sorted(it.slot_finalized) == adapters, "R25", "adapters-finalized", conn,
